@@ -229,13 +229,12 @@ func libCheck(c queryCase, r qref) (msg string, known string) {
 	if r.start < 0 || src[r.start:r.offset] != r.token {
 		return fmt.Sprintf("ParseError{Offset: %d, Token: %q} (%s): the %d bytes before the offset are %q", r.offset, r.token, r.msg, len(r.token), src[max(r.start, 0):r.offset]), ""
 	}
-	if r.token == "" {
-		if r.msg != "unexpected EOF" && r.msg != "unterminated string literal" {
-			return fmt.Sprintf("ParseError with an empty token: %s", r.msg), ""
-		}
-		if r.offset != len(src) {
-			return fmt.Sprintf("%s at offset %d, the source has %d bytes", r.msg, r.offset, len(src)), ""
-		}
+	atEnd := r.msg == "unexpected EOF" || r.msg == "unterminated string literal"
+	if r.token == "" && !atEnd {
+		return fmt.Sprintf("ParseError with an empty token: %s", r.msg), ""
+	}
+	if atEnd && (r.token != "" || r.offset != len(src)) {
+		return fmt.Sprintf("ParseError{Offset: %d, Token: %q} for %q: at the end of input the token is empty and the offset is the length of the source (%d)", r.offset, r.token, r.msg, len(src)), ""
 	}
 	if c.ExpStart >= 0 {
 		if r.start != c.ExpStart || r.token != c.ExpToken {
